@@ -94,10 +94,11 @@ impl TraitHandler for DebugStructHandler {
                     } else {
                         debug_types.push(ty);
 
+                        // `&&`: the last field may be unsized, and only a sized value coerces to `&dyn Debug`
                         builder_token_stream.extend(if name.is_some() {
-                            quote! (builder.field(stringify!(#key), &self.#field_name);)
+                            quote! (builder.field(stringify!(#key), &&self.#field_name);)
                         } else {
-                            quote! (builder.entry(&Educe__RawString(stringify!(#key)), &self.#field_name);)
+                            quote! (builder.entry(&Educe__RawString(stringify!(#key)), &&self.#field_name);)
                         });
                     }
 
@@ -139,7 +140,7 @@ impl TraitHandler for DebugStructHandler {
                     } else {
                         debug_types.push(ty);
 
-                        builder_token_stream.extend(quote! (builder.field(&self.#field_name);));
+                        builder_token_stream.extend(quote! (builder.field(&&self.#field_name);));
                     }
 
                     has_fields = true;
